@@ -51,7 +51,7 @@ class Ctx:
                 return False
             if A.metric_call(site):
                 return False
-            if (callee.j.get("impl_adt") or "").endswith("CountMetrics"):
+            if (callee.j.get("impl_adt") or "") == A.metrics_adt["path"]:
                 return False
             return True
 
